@@ -44,6 +44,13 @@ func (g *Gen) inferMods(fn *ssa.Function, stack map[*ssa.Function]bool) map[stri
 					vn, _, dn, _, _, _ := g.mapHeap(mt)
 					out[vn], out[dn] = true, true
 				}
+			case *ssa.Send:
+				if _, ok := g.cs.Ghosts["chan_len"]; ok {
+					out["ghost.chan_len"] = true
+				}
+				if _, ok := g.cs.Ghosts["chan_log"]; ok {
+					out["ghost.chan_log"] = true
+				}
 			case *ssa.Call:
 				add(g.callMods(&v.Call, stack))
 			case *ssa.Defer:
@@ -68,6 +75,10 @@ func (g *Gen) callMods(c *ssa.CallCommon, stack map[*ssa.Function]bool) map[stri
 		case "append", "copy":
 			if _, elT := g.elemOf(c.Args[0].Type()); elT != nil {
 				out[g.elemHeapName(elT)] = true
+			}
+		case "close":
+			if _, ok := g.cs.Ghosts["chan_closed"]; ok {
+				out["ghost.chan_closed"] = true
 			}
 		case "delete":
 			if mt, ok := c.Args[0].Type().Underlying().(*types.Map); ok {
